@@ -10,6 +10,10 @@ from .. import explore, refmodel as R
 from ..choice import owned_rng
 
 
+# grid shapes sharing a row or column count, visited one after the other in one fresh interpreter (both directions)
+SEQUENCES = [[(1, 2), (2, 2), (2, 3), (3, 2)], [(3, 2), (2, 3), (2, 2), (1, 2)], [(2, 2), (3, 2), (1, 3), (2, 3)], [(2, 3), (1, 3), (3, 1), (2, 2)]]
+
+
 def shapes(tier):
     s = [(1, 2), (2, 2), (2, 3), (3, 2), (3, 3)]
     if tier != "quick":
@@ -18,6 +22,16 @@ def shapes(tier):
 
 
 def task(t, res):
+    """one chain, or (t["sequence"]) the chains of several grid shapes built one after the other in ONE fresh interpreter: what the
+    generator remembered from an earlier grid must not change the distribution on a later one"""
+    if t.get("sequence"):
+        for k, sh in enumerate(t["sequence"]):
+            one_chain(dict(shape=sh, tier=t["tier"]), res, seq=[list(x) for x in t["sequence"]], pos=k)
+        return
+    one_chain(t, res)
+
+
+def one_chain(t, res, seq=None, pos=0):
     from maze_dataset.generation.generators import LatticeMazeGenerators as G
 
     r, c = t["shape"]
@@ -28,6 +42,9 @@ def task(t, res):
     assert len(trees) == R.matrix_tree_count(r, c)
     base = dict(shape=[r, c], tier=t["tier"])
     key = f"C19|gen_wilson|{r}x{c}"
+    if seq is not None:
+        base = dict(sequence=seq, tier=t["tier"])
+        key = f"C19|gen_wilson|{r}x{c}|after_" + ("+".join(f"{a}x{b}" for a, b in seq[:pos]) or "nothing") + "_in_the_same_process"
     kinds = set()
 
     def on_term(ex):
@@ -57,12 +74,12 @@ def task(t, res):
     N = len(trees)
     pv = [probs[i] for i in term_bits]
     info = (r, c, g.n_states, g.n_transitions, len(term_bits), N, float(min(pv)) if pv else None, float(max(pv)) if pv else None, rest, g.capped)
-    res.add("chains", info)
+    res.add("chains" if seq is None else "chains_in_sequences", info if seq is None else info + (pos, repr(seq)))
     res.sample(dict(shape=[r, c], states=g.n_states, transitions=g.n_transitions, terminals=len(term_bits), trees=N,
                     p_min=min(pv) if pv else None, p_max=max(pv) if pv else None, one_over_N=1.0 / N, residual=rest, capped=g.capped,
                     a_terminal_trace=g.rep[next(iter(term_bits))] if term_bits else None, choice_kinds=sorted(kinds)), cap=20)
     for b in term_bits.values():
-        res.nontrivial((r, c, b))
+        res.nontrivial((r, c, b) if seq is None else (r, c, b, pos, repr(seq)))
     if unowned:
         # a draw the oracle does not model: the chain is not the generator's; refuse to decide rather than guess
         res.count("capped_tasks")
@@ -91,10 +108,12 @@ def task(t, res):
 def run(ctx):
     tasks = [dict(shape=s, tier=ctx.tier) for s in shapes(ctx.tier)]
     ctx.pmap("mzcheck.checks.c19", "task", tasks)
+    ctx.pmap("mzcheck.checks.c19", "task", [dict(sequence=q, tier=ctx.tier) for q in SEQUENCES], fresh=True)
     c = ctx.res.counters
     ctx.coverage.update(states=c.get("states", 0), transitions=c.get("transitions", 0),
                         traces_validated_against_impl=c.get("executions", 0),
-                        chains=sorted(ctx.res.sets.get("chains", ())), unowned_draws=c.get("unowned_draws", 0),
+                        chains=sorted(ctx.res.sets.get("chains", ())), sequences_in_one_interpreter=[[list(x) for x in q] for q in SEQUENCES],
+                        chains_in_sequences=len(ctx.res.sets.get("chains_in_sequences", ())), unowned_draws=c.get("unowned_draws", 0),
                         capped=c.get("capped_tasks", 0) > 0)
     ctx.rule = ("complete reachable program-state graph of gen_wilson per grid shape; each edge = one answer of one uniform RNG primitive; "
                 "distinct = distinct terminal spanning trees whose exact absorption probability was computed")
@@ -104,4 +123,7 @@ def run(ctx):
 
 
 def replay(d, res):
+    if d.get("sequence"):
+        task(dict(sequence=[tuple(x) for x in d["sequence"]], tier=d.get("tier", "quick")), res)
+        return
     task(dict(shape=tuple(d["shape"]), tier=d.get("tier", "quick")), res)
